@@ -166,7 +166,7 @@ func reachesPut(c *Ctx, start *FuncInfo, cut map[string]bool) (bool, []string) {
 				return true
 			}
 			if f := Callee(fi.Pkg.TypesInfo, call); f != nil {
-				if callee := c.P.FuncOf(f); callee != nil && callee.Pkg == fi.Pkg {
+				if callee := c.P.FuncOf(f); callee != nil && callee.Pkg == fi.Pkg && !cut[callee.Key] {
 					if dfs(callee) {
 						return true
 					}
@@ -198,7 +198,9 @@ func c13Inventory(c *Ctx) {
 		R.OK("R13a", c.Cfg+m.Full, "", "registered method "+m.Full)
 	}
 	R.Count("registered gRPC methods", len(methods))
-	cut := map[string]bool{"server.(*grpcServer).maybeInline->disk.(Cache).Put": true}
+	// the de-inlining done while serving GetActionResult stores bytes of an ActionResult that is
+	// already stored: maybeInline and whatever it is split into are not followed
+	cut := map[string]bool{"server.(*grpcServer).maybeInline->disk.(Cache).Put": true, "server.(*grpcServer).maybeInline": true}
 	mutating := map[string]bool{}
 	registered := map[string]bool{}
 	for _, m := range methods {
@@ -311,14 +313,91 @@ func c13Interceptors(c *Ctx) {
 			}
 			target = fl.Lit(lit)
 		}
+		userTerms, passTerms := map[string]bool{}, map[string]bool{}
+		for _, hf := range c.P.FuncsInPkg("/server") {
+			hinfo := hf.Pkg.TypesInfo
+			ast.Inspect(hf.Decl, func(n ast.Node) bool {
+				if as, ok := n.(*ast.AssignStmt); ok && len(as.Rhs) == 1 && len(as.Lhs) == 3 {
+					if call, ok := as.Rhs[0].(*ast.CallExpr); ok && calleeKey(hinfo, call) == "server.getLogin" {
+						if o := identObj(hinfo, as.Lhs[0]); o != nil {
+							userTerms[objID(o)] = true
+						}
+						if o := identObj(hinfo, as.Lhs[1]); o != nil {
+							passTerms[objID(o)] = true
+						}
+					}
+				}
+				return true
+			})
+		}
 		ncalls := 0
 		var base *Base
+		// what a path has established: the health method, a hit in the read-only table, the
+		// allow-unauthenticated-reads setting, non-empty credentials (facts of the state, or flags
+		// carried over from a boolean helper that was evaluated for the branch)
+		classify := func(s St) (health, ro, allowUnauth, userNonEmpty, passNonEmpty bool) {
+			health, ro, allowUnauth = s.Get("f:health") == "1", s.Get("f:ro") == "1", s.Get("f:allow") == "1"
+			userNonEmpty, passNonEmpty = s.Get("f:user") == "1", s.Get("f:pass") == "1"
+			for k, v := range s.m {
+				if strings.HasPrefix(k, "p:") && strings.Contains(k, healthConst) && strings.Contains(k, ".FullMethod") && strings.Contains(k, "==") && v == "T" {
+					health = true
+				}
+				if strings.HasPrefix(k, "b:") && v == "true" {
+					if s.Get("v:"+k[2:]) == "ro-lookup" {
+						ro = true
+					}
+					if strings.Contains(strings.ToLower(k), "allowunauthenticatedread") {
+						allowUnauth = true
+					}
+				}
+				if strings.HasPrefix(k, `p:#""==`) && v == "F" {
+					rhs := k[len(`p:#""==`):]
+					if userTerms[rhs] {
+						userNonEmpty = true
+					}
+					if passTerms[rhs] {
+						passNonEmpty = true
+					}
+				}
+			}
+			return
+		}
+		isHelper := localHelpers(c.P, "/server", "server.checkGRPCClientCert", "server.getLogin", "server.(*GrpcBasicAuth).allowed")
 		base = NewBase(Hooks{
+			PostCond: func(x *Exec, cond ast.Expr, truth bool, outs []St) []St {
+				// username != "" / password != "" established on this branch: remembered as path flags
+				// (the variables may live in a helper whose locals are forgotten on return)
+				be, ok := ast.Unparen(cond).(*ast.BinaryExpr)
+				if !ok || (be.Op != token.EQL && be.Op != token.NEQ) {
+					return outs
+				}
+				v := be.X
+				if s0, isC := constString(x.Fn.Info, be.X); isC && s0 == "" {
+					v = be.Y
+				} else if s1, isC := constString(x.Fn.Info, be.Y); !isC || s1 != "" {
+					return outs
+				}
+				if (be.Op == token.NEQ) != truth {
+					return outs
+				}
+				for i := range outs {
+					if t, ok := base.Term(x, v, outs[i]); ok {
+						if userTerms[t] {
+							outs[i] = outs[i].Set("f:user", "1")
+						}
+						if passTerms[t] {
+							outs[i] = outs[i].Set("f:pass", "1")
+						}
+					}
+				}
+				return outs
+			},
 			Assign: func(x *Exec, as *ast.AssignStmt, s St) []St {
 				// _, ro := readOnlyMethods[info.FullMethod]
 				if len(as.Lhs) == 2 && len(as.Rhs) == 1 {
 					if ix, ok := ast.Unparen(as.Rhs[0]).(*ast.IndexExpr); ok {
-						if o := identObj(x.Fn.Info, ix.X); o != nil && o.Name() == "readOnlyMethods" && strings.HasSuffix(exprStr(ix.Index), ".FullMethod") {
+						it, _ := base.Term(x, ix.Index, s)
+						if o := identObj(x.Fn.Info, ix.X); o != nil && o.Name() == "readOnlyMethods" && (strings.HasSuffix(exprStr(ix.Index), ".FullMethod") || strings.HasSuffix(it, ".FullMethod")) {
 							if t, ok := base.Term(x, as.Lhs[1], s); ok {
 								return []St{s.Set("v:"+t, "ro-lookup")}
 							}
@@ -343,6 +422,58 @@ func c13Interceptors(c *Ctx) {
 					}
 					return []St{s}, true
 				}
+				// a boolean helper split off the interceptor (isReadOnlyMethod, allowedWithoutAuth, ...):
+				// its exits that can yield this branch are classified in its own context and the
+				// findings carried over as flags
+				if call, ok := ast.Unparen(cond).(*ast.CallExpr); ok && x.Depth < 3 {
+					if f := Callee(x.Fn.Info, call); f != nil {
+						if hf := c.P.FuncOf(f); hf != nil && hf.Decl.Body != nil && isHelper(hf) {
+							if sig, ok := f.Type().(*types.Signature); ok && sig.Results().Len() == 1 && isBoolType(sig.Results().At(0).Type()) {
+								callee := c.P.FlowOf(hf)
+								init := s
+								pi := 0
+								if callee.Type.Params != nil {
+									for _, fld := range callee.Type.Params.List {
+										for _, name := range fld.Names {
+											if pi < len(call.Args) {
+												if o := callee.Info.Defs[name]; o != nil {
+													if t, ok := base.Term(x, call.Args[pi], s); ok {
+														init = init.Set("arg:"+objID(o), t)
+													}
+												}
+											}
+											pi++
+										}
+									}
+								}
+								var outs []St
+								cx := x.sub(callee)
+								for _, e := range x.Inline(callee, init) {
+									if e.Ret == nil || len(e.Ret.Results) != 1 {
+										continue
+									}
+									for _, r := range base.Refine(cx, e.Ret.Results[0], truth, e.S) {
+										h, ro, al, _, _ := classify(r)
+										o := s
+										if truth {
+											if h {
+												o = o.Set("f:health", "1")
+											}
+											if ro {
+												o = o.Set("f:ro", "1")
+											}
+											if al {
+												o = o.Set("f:allow", "1")
+											}
+										}
+										outs = append(outs, o)
+									}
+								}
+								return dedupe(outs), true
+							}
+						}
+					}
+				}
 				return nil, false
 			},
 			EveryCall: func(x *Exec, call *ast.CallExpr, s St) []St {
@@ -359,27 +490,7 @@ func c13Interceptors(c *Ctx) {
 				}
 				ncalls++
 				// classify the path
-				health, ro, allowUnauth := false, false, false
-				userNonEmpty, passNonEmpty := false, false
-				for k, v := range s.m {
-					if strings.HasPrefix(k, "p:") && strings.Contains(k, healthConst) && strings.Contains(k, ".FullMethod") && strings.Contains(k, "==") && v == "T" {
-						health = true
-					}
-					if strings.HasPrefix(k, "b:") && v == "true" {
-						if s.Get("v:"+k[2:]) == "ro-lookup" {
-							ro = true
-						}
-						if strings.Contains(strings.ToLower(k), "allowunauthenticatedread") {
-							allowUnauth = true
-						}
-					}
-					if strings.HasPrefix(k, `p:#""==username@`) && v == "F" {
-						userNonEmpty = true
-					}
-					if strings.HasPrefix(k, `p:#""==password@`) && v == "F" {
-						passNonEmpty = true
-					}
-				}
+				health, ro, allowUnauth, userNonEmpty, passNonEmpty := classify(s)
 				cred := s.Get("cred") == "cert" || (s.Get("login") == "1" && userNonEmpty && passNonEmpty && s.Get("allowed") == "1")
 				okPath := health || (ro && allowUnauth) || cred
 				site := fmt.Sprintf("%s%s:handler#%d", c.Cfg, key, callOrdinal(x, call))
@@ -388,6 +499,7 @@ func c13Interceptors(c *Ctx) {
 				return []St{s}
 			},
 		})
+		base.AutoInline = isHelper
 		x := NewExec(target, base)
 		x.Run(newSt())
 		if x.Aborted != "" {
@@ -449,6 +561,20 @@ func c13CertPredicate(c *Ctx, key, kind string) {
 	}
 	var base *Base
 	nSucc := 0
+	// locals that hold the verified chains (chains := state.VerifiedChains)
+	chainTerms := map[string]bool{}
+	ast.Inspect(fi.Decl, func(n ast.Node) bool {
+		if as, ok := n.(*ast.AssignStmt); ok && len(as.Lhs) == len(as.Rhs) {
+			for i, r := range as.Rhs {
+				if sel, ok := ast.Unparen(r).(*ast.SelectorExpr); ok && sel.Sel.Name == "VerifiedChains" {
+					if o := identObj(fi.Pkg.TypesInfo, as.Lhs[i]); o != nil {
+						chainTerms[objID(o)] = true
+					}
+				}
+			}
+		}
+		return true
+	})
 	base = NewBase(Hooks{Exit: func(x *Exec, ret *ast.ReturnStmt, s St) {
 		if ret == nil || len(ret.Results) != 1 {
 			return
@@ -464,12 +590,36 @@ func c13CertPredicate(c *Ctx, key, kind string) {
 		}
 		nSucc++
 		chain, first := false, false
-		for k, v := range s.m {
-			if strings.HasPrefix(k, "p:#0==len(") && strings.Contains(k, "VerifiedChains)") && !strings.Contains(k, "VerifiedChains[") && v == "F" {
+		positive := func(t string) bool {
+			if eq, known := relLookup(s, "#0", "==", "len("+t+")"); known && !eq {
+				return true
+			}
+			if lt, known := relLookup(s, "#0", "<", "len("+t+")"); known && lt {
+				return true
+			}
+			return false
+		}
+		for t := range chainTerms {
+			if positive(t) {
 				chain = true
 			}
-			if strings.HasPrefix(k, "p:#0==len(") && strings.Contains(k, "VerifiedChains[#0])") && v == "F" {
+			if positive(t + "[#0]") {
 				first = true
+			}
+		}
+		for k := range s.m {
+			// the chains read directly through the connection state
+			if i := strings.Index(k, "len("); i >= 0 && strings.Contains(k, ".VerifiedChains") {
+				t := k[i+4:]
+				if j := strings.Index(t, ")"); j > 0 {
+					t = t[:j]
+					if strings.HasSuffix(t, ".VerifiedChains") && positive(t) {
+						chain = true
+					}
+					if strings.HasSuffix(t, ".VerifiedChains[#0]") && positive(t) {
+						first = true
+					}
+				}
 			}
 		}
 		R.Check(chain && first, "R13d", fmt.Sprintf("%s%s:return#%d", c.Cfg, key, returnOrdinal(x.Fn, ret)), c.P.Pos(ret.Pos()),
